@@ -50,17 +50,34 @@ def main():
         sh('git -C %s worktree remove --force %s' % (REPO, wt))
     demo_ok = (rc0 == 0 and rc1 != 0)
     tests_ok = skip_tests or ('217 passed' in tests and '4 failed' in tests)
-    # run the check on /repo with the patch applied
-    rc, out = sh('git -C %s status --porcelain' % REPO)
-    assert out.strip() == '', '/repo not clean: ' + out
-    rc, out = sh('git -C %s apply %s' % (REPO, patch))
-    assert rc == 0, out
+    # run the check on a patched copy of the tree (VERIF_REPO points the loader and the replayer at it), so that
+    # several seeded changes can be tried concurrently and /repo itself is never modified; --in-repo applies the
+    # patch to /repo itself instead (git apply ... run ... git checkout -- .)
+    in_repo = '--in-repo' in sys.argv
+    if in_repo:
+        rc, out = sh('git -C %s status --porcelain' % REPO)
+        assert out.strip() == '', '/repo not clean: ' + out
+        rc, out = sh('git -C %s apply %s' % (REPO, patch))
+        assert rc == 0, out
+        target = REPO
+    else:
+        target = '/tmp/wt_chk_%s_%s' % (prop, name)
+        sh('git -C %s worktree remove --force %s' % (REPO, target))
+        rc, out = sh('git -C %s worktree add -q --detach %s HEAD' % (REPO, target))
+        assert rc == 0, out
+        rc, out = sh('git apply %s' % patch, cwd=target)
+        assert rc == 0, out
     try:
         t0 = time.time()
-        crc, cout = sh('python3-vt %s/check.py %s --tier %s --no-canaries' % (VERIF, prop, tier), cwd=VERIF, timeout=7200)
+        env = dict(os.environ, VERIF_REPO=target, VERIF_EVIDENCE_DIR='/tmp/ev_%s_%s' % (prop, name))
+        crc, cout = sh('python3-vt %s/check.py %s --tier %s --no-canaries' % (VERIF, prop, tier), cwd=VERIF, timeout=7200, env=env)
         dt = time.time() - t0
     finally:
-        sh('git -C %s checkout -- .' % REPO)
+        if in_repo:
+            sh('git -C %s checkout -- .' % REPO)
+        else:
+            sh('git -C %s worktree remove --force %s' % (REPO, target))
+        shutil.rmtree('/tmp/ev_%s_%s' % (prop, name), ignore_errors=True)
     viol = [l for l in cout.splitlines() if l.startswith('VIOLATION') or l.startswith('  key=')]
     ran.append('%s check (%s tier) on /repo with the patch applied: exit %d in %.0fs' % (prop, tier, crc, dt))
     detected = (crc == 1 and any(l.startswith('VIOLATION') for l in viol))
